@@ -144,10 +144,77 @@ static std::string do_int(Args& a, bool nested = false)
 	});
 }
 
+// history across the two entry points: Find_Epsilon(g, lo, hi, precision) immediately followed by
+// Integrate(f, a, b, eps, depth) with a DIFFERENT integrand of the SAME callable type on the same (ordered) limits.
+// The Integrate run must be the run of the plain call.
+struct Rec
+{
+	long long n = 0;
+	long double sum = 0;
+	double mn = INFINITY, mx = -INFINITY;
+	std::vector<double> xs;
+	int tr = 0;
+};
+static std::string do_hist(Args& a)
+{
+	int tr	   = (int) a.i64();
+	Fn fn	   = parse_fn(a);
+	double lo  = a.dbl();
+	double hi  = a.dbl();
+	double eps = a.dbl();
+	int depth  = (int) a.i64();
+	Fn gfn	   = parse_fn(a);
+	double prec = a.dbl();
+	a.end();
+	return run([&](Out& o) {
+		Rec rec, grec;
+		rec.tr = tr;
+		// one lambda expression -> one closure type for both integrands (std::function::target_type() is the same)
+		auto make = [](const Fn* F, Rec* r) {
+			return [F, r](double x) {
+				r->n++;
+				r->sum += x;
+				if(x < r->mn)
+					r->mn = x;
+				if(x > r->mx)
+					r->mx = x;
+				if(r->tr)
+					r->xs.push_back(x);
+				return (*F)(x);
+			};
+		};
+		std::function<double(double)> g = make(&gfn, &grec);
+		std::function<double(double)> f = make(&fn, &rec);
+		std::ostringstream cap_out, cap_err;
+		std::streambuf* ob = std::cout.rdbuf(cap_out.rdbuf());
+		std::streambuf* eb = std::cerr.rdbuf(cap_err.rdbuf());
+		volatile double e0 = Find_Epsilon(g, std::min(lo, hi), std::max(lo, hi), prec);
+		(void) e0;
+		double r = Integrate(f, lo, hi, eps, depth);
+		std::cout.rdbuf(ob);
+		std::cerr.rdbuf(eb);
+		long nwarn = 0;
+		{
+			const std::string txt = cap_out.str();
+			for(size_t p = txt.find("Warning"); p != std::string::npos; p = txt.find("Warning", p + 1))
+				nwarn++;
+		}
+		if(std::isnan(r) || std::isinf(r))
+			nwarn--;
+		int warn  = nwarn > 0;
+		int swapw = !cap_err.str().empty();
+		o << r << warn << rec.n << (double) rec.sum << rec.mn << rec.mx << swapw;
+		if(tr)
+			o << rec.xs;
+	});
+}
+
 std::string handle(const std::string& op, Args& a)
 {
 	if(op == "c03.int" || op == "c03.fam")
 		return do_int(a);
+	if(op == "c03.hist" || op == "c03.histf")
+		return do_hist(a);
 	if(op == "c03.nested" || op == "c03.nestedf")
 		return do_int(a, true);
 	throw BadOp();
